@@ -695,3 +695,46 @@ func (fr *frame) doTypeAssert(x *ssa.TypeAssert, st *state) {
 }
 
 func trimParens(s string) string { return strings.TrimSpace(s) }
+
+// byte-order helpers of encoding/binary and the float bit casts of package math: no heap effect beyond the
+// destination slice; a too-short slice panics (safe.index obligation).
+func byteOrderRead(width int) stdSpec {
+	return func(fr *frame, c *ssa.CallCommon, args []T, st *state, pos string) []T {
+		b := args[len(args)-1]
+		fr.obligeHere("safe.index", "", st, fmt.Sprintf("(>= (s_len %s) %d)", b.S, width), pos)
+		fr.vc.assumedStd["encoding/binary ByteOrder.UintN(b): some value in [0, 2^N) computed from b[:N/8]; panics when len(b) < N/8; no other effect"] = true
+		rt := c.Signature().Results().At(0).Type()
+		return []T{fr.freshOf("bo_v", rt, st)}
+	}
+}
+
+func byteOrderPut(width int) stdSpec {
+	return func(fr *frame, c *ssa.CallCommon, args []T, st *state, pos string) []T {
+		b := args[len(args)-2]
+		fr.obligeHere("safe.index", "", st, fmt.Sprintf("(>= (s_len %s) %d)", b.S, width), pos)
+		fr.vc.assumedStd["encoding/binary ByteOrder.PutUintN(b, v): writes b[:N/8] only; panics when len(b) < N/8"] = true
+		fr.havocTarget(T{b.S, "Slice", c.Args[len(c.Args)-2].Type()}, st, pos)
+		return []T{}
+	}
+}
+
+func bitCast(name, from, to string, gt types.Type) stdSpec {
+	return func(fr *frame, c *ssa.CallCommon, args []T, st *state, pos string) []T {
+		fr.vc.decl(name, fmt.Sprintf("(declare-fun %s (%s) %s)", name, from, to))
+		fr.vc.assumedStd["math.Float32bits/Float32frombits/Float64bits/Float64frombits: uninterpreted deterministic functions"] = true
+		return []T{{fmt.Sprintf("(%s %s)", name, args[0].S), Sort(to), gt}}
+	}
+}
+
+func init() {
+	for _, bo := range []string{"littleEndian", "bigEndian"} {
+		for _, w := range []int{2, 4, 8} {
+			stdSpecs[fmt.Sprintf("(encoding/binary.%s).Uint%d", bo, w*8)] = byteOrderRead(w)
+			stdSpecs[fmt.Sprintf("(encoding/binary.%s).PutUint%d", bo, w*8)] = byteOrderPut(w)
+		}
+	}
+	stdSpecs["math.Float32frombits"] = bitCast("math.Float32frombits", "Int", "Real", types.Typ[types.Float32])
+	stdSpecs["math.Float64frombits"] = bitCast("math.Float64frombits", "Int", "Real", types.Typ[types.Float64])
+	stdSpecs["math.Float32bits"] = bitCast("math.Float32bits", "Real", "Int", types.Typ[types.Uint32])
+	stdSpecs["math.Float64bits"] = bitCast("math.Float64bits", "Real", "Int", types.Typ[types.Uint64])
+}
